@@ -1,6 +1,9 @@
 //! Logic related to the Responder, the components in charge of making sure breaches get properly punished.
 
+#[cfg(not(kani))]
 use std::collections::HashSet;
+#[cfg(kani)]
+use crate::verif_collections::HashSet;
 use std::sync::{Arc, Mutex};
 
 use bitcoin::hashes::Hash;
@@ -1490,3 +1493,7 @@ mod tests {
         assert!(responder.reorged_trackers.lock().unwrap().is_empty());
     }
 }
+
+#[cfg(kani)]
+#[path = "/verif/harness/teos/responder.rs"]
+mod verif_harness;
